@@ -101,7 +101,10 @@ def parseV (j : Json) : Except String V := do
   | "IsTrue" => return .isTrue
   | "IsFalse" => return .isFalse
   | "Converted" => return .converted
-  | "ValueIn" => return .valueIn (← (← afld j "valid_options").mapM parseVal)
+  | "ValueIn" =>
+    match (← fld j "valid_options") with
+    | .str t => return .valueInText t.toList
+    | o => return .valueIn (← (← arr o).mapM parseVal)
   | "ShorterThan" => return .shorterThan (← ifld j "maxlength")
   | "LongerThan" => return .longerThan (← ifld j "minlength")
   | "LengthBetween" => return .lengthBetween (← ifld j "minlength") (← ifld j "maxlength")
